@@ -388,6 +388,7 @@ func c17Run(p c17Plan, rnd *rand.Rand) c17Result {
 
 func c17Wire(p c17Plan, res c17Result) string {
 	e := &emit.Enc{}
+	e.Int(0) // kind 0: history of one limiter
 	e.Int(p.N0).Z(int64(time.Duration(p.W0ms) * time.Millisecond)).Z(res.TCreate).Len(len(res.Obs))
 	for _, o := range res.Obs {
 		e.Int(o.Tag).Z(o.Arg).Z(o.C).Z(o.E).Int(o.Res).ZList(o.Extra).ZList(o.Ends).ZList(o.Ring).Int(o.Cursor).Z(o.Window)
@@ -546,11 +547,111 @@ func c17Throttle() []emit.OracleCheck {
 	}
 }
 
+// c17FirstPlan is one "concurrent first throttle" round: Callers goroutines are released
+// together into the real acmeClient.throttle for a CA + account that has no limiter yet, with
+// RateLimitEvents = N and a window far longer than the deadline after which the callers give up.
+type c17FirstPlan struct {
+	N          int `json:"rate_limit_events"`
+	WindowS    int `json:"window_s"`
+	Callers    int `json:"callers"`
+	DeadlineMs int `json:"deadline_ms"`
+	Rounds     int `json:"rounds,omitempty"` // replay: how many fresh keys to try
+}
+
+type c17FirstObs struct {
+	Key      string `json:"key"`
+	Admitted int    `json:"admitted"`
+	Stamps   int    `json:"stamps_in_registered_limiter"`
+	Round    int    `json:"round"`
+}
+
+var c17FirstSerial atomic.Int64
+
+// c17FirstRound runs one round on a fresh key. The package variables RateLimitEvents /
+// RateLimitEventsWindow must not be used by anything else meanwhile (rounds run one at a time).
+func c17FirstRound(p c17FirstPlan, cfg *certmagic.Config) c17FirstObs {
+	origN, origW := certmagic.RateLimitEvents, certmagic.RateLimitEventsWindow
+	certmagic.RateLimitEvents, certmagic.RateLimitEventsWindow = p.N, time.Duration(p.WindowS)*time.Second
+	defer func() { certmagic.RateLimitEvents, certmagic.RateLimitEventsWindow = origN, origW }()
+	dir := fmt.Sprintf("https://c17-first-%d-%d.internal/directory", time.Now().UnixNano(), c17FirstSerial.Add(1))
+	iss := certmagic.NewACMEIssuer(cfg, certmagic.ACMEIssuer{CA: dir, Email: "c17first@example.com", Logger: zap.NewNop()})
+	_ = iss.PreCheck(context.Background(), []string{"c17.example"}, false)
+	key := dir + ",c17first@example.com"
+	var admitted, start atomic.Int32
+	var ready, done sync.WaitGroup
+	for i := 0; i < p.Callers; i++ {
+		ready.Add(1)
+		done.Add(1)
+		go func(i int) {
+			defer done.Done()
+			ready.Done()
+			for start.Load() == 0 {
+				// spin: all callers that are running leave at the same instant
+			}
+			ctx, cancel := context.WithTimeout(context.Background(), time.Duration(p.DeadlineMs)*time.Millisecond)
+			defer cancel()
+			if certmagic.VerifThrottle(ctx, iss, dir, []string{fmt.Sprintf("host%d.c17.example", i)}) == nil {
+				admitted.Add(1)
+			}
+		}(i)
+	}
+	ready.Wait()
+	start.Store(1)
+	done.Wait()
+	time.Sleep(2 * time.Millisecond)
+	o := c17FirstObs{Key: key, Admitted: int(admitted.Load())}
+	if rl, ok := certmagic.VerifRateLimiterFor(key); ok {
+		rg, _, _ := certmagic.VerifRateLimiterSnapshot(rl)
+		for _, t := range rg {
+			if !t.IsZero() {
+				o.Stamps++
+			}
+		}
+		rl.Stop()
+	}
+	return o
+}
+
+func c17FirstEmit(w *emit.Writer, p c17FirstPlan, o c17FirstObs) {
+	e := &emit.Enc{}
+	e.Int(1).Int(p.N).Z(int64(time.Duration(p.WindowS) * time.Second)).Int(p.Callers).
+		Z(int64(time.Duration(p.DeadlineMs) * time.Millisecond)).Int(o.Admitted).Int(o.Stamps)
+	w.Hist("class=concurrent-first-throttle")
+	w.Hist(fmt.Sprintf("first_throttle: callers=%d limit=%d", p.Callers, p.N))
+	w.Add(emit.Case{Desc: map[string]any{"class": "concurrent-first-throttle", "callers": p.Callers, "rate_limit_events": p.N},
+		In: p, Obs: o, Wire: e.String(), Nontrivial: p.Callers > p.N, Key: fmt.Sprintf("first:%d:%d:%d", p.N, p.Callers, o.Round)})
+}
+
+// c17FirstThrottle runs the rounds of the class; a round in which fewer than min(callers, N)
+// got through (the process was not scheduled in time) is repeated on another fresh key.
+func c17FirstThrottle(w *emit.Writer, plans []c17FirstPlan, stopAtFailure bool) {
+	cfg, cache := doubles.NewConfig(doubles.NewMemBackend().Handle("c17first"), certmagic.Config{}, certmagic.CacheOptions{})
+	defer cache.Stop()
+	for r, p := range plans {
+		var o c17FirstObs
+		for try := 0; try < 3; try++ {
+			o = c17FirstRound(p, cfg)
+			if o.Admitted >= min(p.Callers, p.N) || p.N == 0 {
+				break
+			}
+			w.Hist("first_throttle: round_repeated_too_few_admitted")
+		}
+		o.Round = r
+		if stopAtFailure && o.Admitted <= p.N && r < len(plans)-1 {
+			continue // replay: look for a round that shows the failure; emit the last one otherwise
+		}
+		c17FirstEmit(w, p, o)
+		if stopAtFailure {
+			return
+		}
+	}
+}
+
 func runC17(tier string, seed int64, outdir string, replay string) error {
 	log.SetOutput(io.Discard) // a limiter whose loop panics logs a stack trace
 	w := emit.NewWriter(outdir, "C17", tier, seed)
 	defer w.Close()
-	w.Meta.Rule = "distinct histories in which at least one admission had to wait for a slot or the limit/window was effectively changed"
+	w.Meta.Rule = "distinct histories in which at least one admission had to wait for a slot or the limit/window was effectively changed; concurrent-first-throttle rounds with more callers than RateLimitEvents"
 	type job struct {
 		class string
 		plan  c17Plan
@@ -562,14 +663,38 @@ func runC17(tier string, seed int64, outdir string, replay string) error {
 		if err != nil {
 			return err
 		}
+		cl, _ := rc.Desc["class"].(string)
+		if cl == "concurrent-first-throttle" {
+			var fp c17FirstPlan
+			if err := json.Unmarshal(rc.In, &fp); err != nil {
+				return err
+			}
+			// the failure needs a race: try the same parameters on up to 40 fresh keys
+			plans := make([]c17FirstPlan, 40)
+			for i := range plans {
+				plans[i] = fp
+			}
+			c17FirstThrottle(w, plans, true)
+			return nil
+		}
 		var p c17Plan
 		if err := json.Unmarshal(rc.In, &p); err != nil {
 			return err
 		}
-		cl, _ := rc.Desc["class"].(string)
 		jobs = append(jobs, job{cl, p, seed})
 	} else {
 		w.Meta.Oracles = append(w.Meta.Oracles, c17Throttle()...)
+		// concurrent first throttle, before the timing-sensitive histories start (the callers spin)
+		nFirst := 24
+		if tier == "thorough" {
+			nFirst = 120
+		}
+		var fplans []c17FirstPlan
+		for i := 0; i < nFirst; i++ {
+			fplans = append(fplans, c17FirstPlan{N: []int{2, 1, 3, 2}[i%4], WindowS: 3600, Callers: []int{32, 16, 32, 8, 24, 48}[i%6], DeadlineMs: 100})
+		}
+		fplans = append(fplans, c17FirstPlan{N: 0, WindowS: 0, Callers: 8, DeadlineMs: 100}, c17FirstPlan{N: 40, WindowS: 3600, Callers: 16, DeadlineMs: 100})
+		c17FirstThrottle(w, fplans, false)
 		for i, c := range c17Corpus() {
 			jobs = append(jobs, job{c.class, c.plan, seed*1000 + int64(i)})
 		}
@@ -584,7 +709,7 @@ func runC17(tier string, seed int64, outdir string, replay string) error {
 	}
 	results := make([]c17Result, len(jobs))
 	stalled := make([]bool, len(jobs))
-	mon := startStallMonitor()
+	mon := c17StartStallMonitor()
 	defer mon.Stop()
 	var mu sync.Mutex
 	reruns, skipped := 0, 0
